@@ -158,7 +158,7 @@ func (w *World) advanceClock() bool {
 
 func Now() time.Time {
 	if W != nil {
-		return epoch.Add(time.Duration(W.now))
+		return epoch.Add(time.Duration(W.Spec.ClockOffset + W.now))
 	}
 	return epoch
 }
@@ -250,6 +250,11 @@ func (t *Timer) Reset(d time.Duration) bool {
 }
 
 // Getpid / Getppid / Hostname: fixed values, so that names derived from them replay.
-func Getpid() int               { return 4242 }
+func Getpid() int {
+	if W != nil && W.Spec.Pid != 0 {
+		return W.Spec.Pid
+	}
+	return 4242
+}
 func Getppid() int              { return 4241 }
 func Hostname() (string, error) { return "simhost", nil }
